@@ -1146,12 +1146,14 @@ class Interp:
                 "super": "super", "object": object, "complex": complex, "NotImplemented": NotImplemented,
                 "callable": callable, "repr": repr, "divmod": divmod, "pow": lambda a, b: it.binop(ast.Pow(), a, b),
             }
+            self._type_alias = {id(self._BUILTINS[n]): t for n, t in (("float", float), ("int", int), ("list", list), ("tuple", tuple), ("bool", bool))}
         return self._BUILTINS
 
     def isinstance(self, x, types):
         if not isinstance(types, tuple):
             types = (types,)
-        types = tuple({"b_float": float, "b_int": int}.get(getattr(t, "__name__", None), t) if callable(t) and not isinstance(t, type) else t for t in types)
+        alias = getattr(self, "_type_alias", {})
+        types = tuple(alias.get(id(t), t) if callable(t) and not isinstance(t, type) else t for t in types)
         x0 = x
         x = unwrap(x)
         for t in types:
@@ -1715,6 +1717,13 @@ def sym_mat(prefix, r, c):
 def unit_syms(prefix):
     """a unit quaternion as four plain symbols with the declared relation w^2 = 1 - x^2 - y^2 - z^2 (cheap representation)"""
     a = sym_vec(prefix, 4, "wxyz")
+    P.declare_unit(list(a))
+    return a
+
+
+def unit_vec(prefix, n=3):
+    """a unit n-vector of plain symbols with the declared relation v0^2 = 1 - sum(v_i^2)"""
+    a = sym_vec(prefix, n)
     P.declare_unit(list(a))
     return a
 
